@@ -1,4 +1,5 @@
 import Ekit.Props.C09b
+import Ekit.Props.C09bRev
 open Ekit.DelayQ
 #print axioms c09_skel_DelayQueue_Dequeue
 #print axioms c09_skel_DelayQueue_Enqueue
@@ -20,3 +21,13 @@ open Ekit.DelayQ
 #print axioms c09_capacity_conserved
 #print axioms c09_delivers_at_quiescence
 #print axioms c09_delay_promptness_partial
+-- review additions (Ekit/Props/C09bRev.lean): broadcast wakes all, solo completion (variant), drain
+#print axioms c09_broadcast_wakes_all
+#print axioms deqTail_runs
+#print axioms c09_woken_dequeue_completes_solo
+#print axioms c09_ticked_dequeue_completes_solo
+#print axioms c09_timer_dequeue_completes_by_time_alone
+#print axioms c09_woken_enqueue_completes_solo
+#print axioms c09_futile_wakeup_reparks_fresh
+#print axioms c09_drains_at_quiescence
+#print axioms c09_accepts_and_delivers_capacity
